@@ -81,6 +81,9 @@ pub enum AddrE {
     /// script address of a policy (index into policies)
     Policy(usize),
     Hex(Vec<u8>),
+    /// the address written as a string literal holding its hex / its bech32 text
+    HexString(Vec<u8>),
+    Bech32String(Vec<u8>),
 }
 
 #[derive(Debug, Clone, Serialize, Deserialize, PartialEq)]
@@ -404,6 +407,11 @@ impl P {
             AddrE::Party(n) => self.tok(n),
             AddrE::Policy(i) => self.tok(&prog.policies[*i].0),
             AddrE::Hex(b) => self.tok(&format!("0x{}", hex::encode(b))),
+            AddrE::HexString(b) => self.tok(&format!("\"{}\"", hex::encode(b))),
+            AddrE::Bech32String(b) => {
+                let hrp = if b.first().map(|h| h & 0x0f == 1).unwrap_or(false) { "addr" } else { "addr_test" };
+                self.tok(&format!("\"{}\"", crate::props::c16::bech32_enc(hrp, b)))
+            }
         }
     }
 
@@ -1188,9 +1196,11 @@ pub fn generate(c: &mut Chooser) -> Scenario {
 
     // payment output
     let pay = gen_pay_amount(&mut g, "pay.amount", &mut prog);
-    let pay_to = match g.pick("pay.to", &["party", "policy", "hex"]) {
+    let pay_to = match g.pick("pay.to", &["party", "policy", "hex", "hex-in-a-string", "bech32-in-a-string"]) {
         0 => AddrE::Party(receiver.to_string()),
         1 => AddrE::Policy(ensure_policy(&mut prog)),
+        3 => AddrE::HexString(crate::common::pipeline::enterprise_address(9, network)),
+        4 => AddrE::Bech32String(crate::common::pipeline::enterprise_address(9, network)),
         _ => AddrE::Hex(crate::common::pipeline::enterprise_address(9, network)),
     };
     // change output first so that `ensure_datum_input` can extend it
